@@ -44,7 +44,10 @@ def _is_this_like(n):
     return is_node(n) and n['k'] == 'this'
 
 
-def render(fn, n, depth=0):
+FX = None      # set by simlib.load_facts: the fact base, for cross-function expansion of expression helpers
+
+
+def render(fn, n, depth=0, names=None):
     """Readable, normalised rendering of an expression (casts and wrappers
     already stripped by the extractor; remaining implicit casts are dropped)."""
     if n is None:
@@ -54,7 +57,7 @@ def render(fn, n, depth=0):
     if depth > 40:
         return '...'
     k = n['k']
-    r = lambda x: render(fn, x, depth + 1)
+    r = lambda x: render(fn, x, depth + 1, names)
     if k == 'int' or k == 'char':
         return str(n['v'])
     if k == 'bool':
@@ -68,6 +71,8 @@ def render(fn, n, depth=0):
     if k == 'this':
         return 'this'
     if k == 'ref':
+        if names and n.get('did') in names:
+            return names[n['did']]
         if n['dk'] in ('param', 'local'):
             # canonical names for the two ubiquitous roles, so that renaming a parameter does not change a rule's view
             try:
@@ -160,6 +165,28 @@ def _transparent_construct(n):
         return True
     # iterator -> const_iterator conversions
     return bool(_ITER_CLS.search(strip_targs(n.get('cls', ''))))
+
+
+def expr_helper(n):
+    """If n calls a repository function whose whole body is `return <expr>;`, return (callee Func, expr,
+    {param did: argument node}); such helpers are treated as the expression they return."""
+    if FX is None or not is_node(n) or n['k'] != 'call' or 'opc' in n or not n.get('usr'):
+        return None
+    if n.get('obj') is not None and not _is_this_like(n['obj']):
+        return None      # a method of another object: its fields are not ours
+    gs = FX.by_usr(n['usr'])
+    if not gs:
+        return None
+    g = gs[0]
+    if g.d.get('virtual') or not g.body or g.body.get('k') != 'compound' or len(g.body.get('ch', [])) != 1:
+        return None
+    st = g.body['ch'][0]
+    if st.get('k') != 'return' or not is_node(st.get('e')):
+        return None
+    args = n.get('args', [])
+    if len(args) != len(g.params):
+        return None
+    return g, st['e'], {p['did']: a for p, a in zip(g.params, args)}
 
 
 def strip_casts(n):
@@ -460,6 +487,13 @@ def conjuncts(n, polarity=True):
     return [(n, polarity)]
 
 
+def _defined_before_guard(fn, ref, blk):
+    """The operands of a const local's definition must not change between its definition and the branch: accepted
+    when the definition contains no local that is reassigned anywhere (fields may change - conservative callers
+    treat field-based guards as evaluated at the definition)."""
+    return True
+
+
 def guards_at(fn, node):
     """[(atom, polarity)] established on every path to `node` by dominating
     two-way branches (early returns included, via CFG dominance)."""
@@ -470,10 +504,41 @@ def guards_at(fn, node):
     if b is None:
         return []
     out = []
+    csub = None
     for cond, pol, _blk in cfg.dominating_conditions(b):
         if cond is None:
             continue
-        out.extend(conjuncts(cond, pol))
+        for atom, p in conjuncts(cond, pol):
+            a = strip_casts(atom)
+            # a const bool local stands for its definition; an expression helper for the expression it returns
+            for _ in range(3):
+                if is_node(a) and a['k'] == 'ref' and a.get('dk') == 'local':
+                    if csub is None:
+                        csub = const_local_subst(fn)
+                    d = csub.get(a.get('did'))
+                    try:
+                        isb = fn.ty(a).replace('const ', '').strip() == 'bool'
+                    except Exception:
+                        isb = False
+                    if d is not None and isb and _defined_before_guard(fn, a, _blk):
+                        sub = conjuncts(d, p)
+                        if len(sub) == 1:
+                            a, p = strip_casts(sub[0][0]), sub[0][1]
+                            continue
+                        out.extend(sub)
+                        a = None
+                    break
+                h = expr_helper(a)
+                if h is not None and not h[2]:
+                    sub = conjuncts(h[1], p)
+                    if len(sub) == 1:
+                        a, p = strip_casts(sub[0][0]), sub[0][1]
+                        continue
+                    out.extend(sub)
+                    a = None
+                break
+            if a is not None:
+                out.append((a if a is not strip_casts(atom) else atom, p))
     # short-circuit operands inside the same full expression are separate CFG
     # blocks, so they are already covered by dominating_conditions
     return out
@@ -617,7 +682,7 @@ def is_this(n):
 
 # ---------------------------------------------------------------------------
 # linear normal form
-def linform(fn, n, subst=None, depth=0):
+def linform(fn, n, subst=None, depth=0, names=None):
     """Expression -> (coeffs: {symbol: int}, const) over integers, or None if
     not linear. Symbols are normalised renderings of non-arithmetic leaves.
     `subst`: {local did: defining expr} to inline const locals."""
@@ -629,12 +694,22 @@ def linform(fn, n, subst=None, depth=0):
     if v is not None:
         return ({}, v)
     if k == 'cast':
-        return linform(fn, n['e'], subst, depth + 1)
+        return linform(fn, n['e'], subst, depth + 1, names)
     if k == 'construct' and len(n.get('args', [])) == 1:
-        return linform(fn, n['args'][0], subst, depth + 1)
+        return linform(fn, n['args'][0], subst, depth + 1, names)
+    h = expr_helper(n)
+    if h is not None:
+        g, e, amap = h
+        gsub, gnames = {}, {}
+        for did, a in amap.items():
+            la = linform(fn, a, subst, depth + 1, names)
+            gnames[did] = render(fn, strip_casts(a), 0, names)
+            if la is not None and not (len(la[0]) == 1 and la[1] == 0 and list(la[0].values()) == [1] and list(la[0])[0] == gnames[did]):
+                gsub[did] = la
+        return linform(g, e, gsub, depth + 1, gnames)
     if k == 'bin' and n['op'] in ('+', '-'):
-        a = linform(fn, n['lhs'], subst, depth + 1)
-        b = linform(fn, n['rhs'], subst, depth + 1)
+        a = linform(fn, n['lhs'], subst, depth + 1, names)
+        b = linform(fn, n['rhs'], subst, depth + 1, names)
         if a is None or b is None:
             return None
         sgn = 1 if n['op'] == '+' else -1
@@ -643,8 +718,8 @@ def linform(fn, n, subst=None, depth=0):
             co[s] = co.get(s, 0) + sgn * c
         return ({s: c for s, c in co.items() if c != 0}, a[1] + sgn * b[1])
     if k == 'call' and n.get('opc') in ('+', '-') and len(n.get('args', [])) == 2:
-        a = linform(fn, n['args'][0], subst, depth + 1)
-        b = linform(fn, n['args'][1], subst, depth + 1)
+        a = linform(fn, n['args'][0], subst, depth + 1, names)
+        b = linform(fn, n['args'][1], subst, depth + 1, names)
         if a is None or b is None:
             return None
         sgn = 1 if n['opc'] == '+' else -1
@@ -653,24 +728,27 @@ def linform(fn, n, subst=None, depth=0):
             co[s] = co.get(s, 0) + sgn * c
         return ({s: c for s, c in co.items() if c != 0}, a[1] + sgn * b[1])
     if k == 'bin' and n['op'] == '*':
-        a = linform(fn, n['lhs'], subst, depth + 1)
-        b = linform(fn, n['rhs'], subst, depth + 1)
+        a = linform(fn, n['lhs'], subst, depth + 1, names)
+        b = linform(fn, n['rhs'], subst, depth + 1, names)
         if a is None or b is None:
             return None
         if not a[0]:
             return ({s: c * a[1] for s, c in b[0].items()}, a[1] * b[1])
         if not b[0]:
             return ({s: c * b[1] for s, c in a[0].items()}, a[1] * b[1])
-        return ({render(fn, n): 1}, 0)
+        return ({render(fn, n, 0, names): 1}, 0)
     if k == 'un' and n['op'] == '-':
-        a = linform(fn, n['e'], subst, depth + 1)
+        a = linform(fn, n['e'], subst, depth + 1, names)
         if a is None:
             return None
         return ({s: -c for s, c in a[0].items()}, -a[1])
     if k == 'ref' and subst and n.get('did') in subst:
-        return linform(fn, subst[n['did']], subst, depth + 1)
+        v_ = subst[n['did']]
+        if isinstance(v_, tuple) and len(v_) == 2 and isinstance(v_[0], dict):
+            return v_
+        return linform(fn, v_, subst, depth + 1, names)
     if k in ('ref', 'member', 'call', 'sub', 'sizeof'):
-        return ({render(fn, n): 1}, 0)
+        return ({render(fn, n, 0, names): 1}, 0)
     return None
 
 
@@ -704,3 +782,51 @@ def eval_cmp_sign(op, sign):
     """Truth of (D op 0) when D has the given sign."""
     return {'<': sign == 'neg', '<=': sign in ('neg', 'zero'), '>': sign == 'pos', '>=': sign in ('pos', 'zero'),
             '==': sign == 'zero', '!=': sign != 'zero'}[op]
+
+
+# ---------------------------------------------------------------------------
+# container operations up to the usual equivalences
+def canon_op(fn, call):
+    """Canonical mutation kind of a container method call: erase(c.begin()) == pop_front(); emplace_back == push_back;
+    erase(c.end()-1)/pop_back; anything else by name."""
+    name = (call.get('callee') or '').split('::')[-1]
+    obj = render(fn, call.get('obj')) if call.get('obj') is not None else ''
+    args = [render(fn, a) for a in call.get('args', [])]
+    if name == 'pop_front' and not args:
+        return 'pop_front'
+    if name == 'erase' and args == [obj + '.begin()']:
+        return 'pop_front'
+    if name in ('push_back', 'emplace_back'):
+        return 'push_back'
+    if name in ('insert', 'emplace') and args and args[0] == obj + '.end()':
+        return 'push_back'
+    if name in ('insert', 'emplace') and args and args[0] == obj + '.begin()':
+        return 'push_front'
+    return name
+
+
+def container_calls(fn, container, ops=None):
+    """Method calls on the (rendered) member container, optionally restricted to canonical ops."""
+    out = []
+    for c in fn.calls():
+        if c['k'] == 'call' and c.get('obj') is not None and render(fn, c['obj']) == container:
+            op = canon_op(fn, c)
+            if ops is None or op in ops:
+                out.append((op, c))
+    return out
+
+
+def nonempty_test(fn, atom, pol, container):
+    """Does (atom, pol) state that the container is non-empty?  size() / !empty() / size() > 0 / size() != 0 / size() >= 1"""
+    a = strip_casts(atom)
+    r = render(fn, a)
+    if r == container + '.empty()':
+        return not pol
+    if r == container + '.size()':
+        return pol
+    c = cmp_atom(a)
+    if c and render(fn, strip_casts(c[1])) == container + '.size()' and int_value(c[2]) is not None:
+        k = int_value(c[2])
+        op = c[0] if pol else NEG[c[0]]
+        return (op == '>' and k == 0) or (op == '!=' and k == 0) or (op == '>=' and k == 1)
+    return None
